@@ -13,6 +13,7 @@ order, of running the router's extractor on that member's bytes alone with path 
 """
 from __future__ import annotations
 
+import base64
 import contextlib
 import io
 import json
@@ -29,7 +30,8 @@ from run import Broken, Violation
 
 GEN = ["SevenZip", "ModState"]
 RULE = ("cases = (a) byte strings for the varint / bit-vector readers, (b) 7z files = member set x grouping into folders "
-        "x coder per folder x header options, plus header-byte mutations / truncations with CRCs re-sealed, "
+        "x coder per folder WITH its parameters (LZMA2 dictionary byte, LZMA lc/lp/pb/dictionary; 'far' member sets repeat a block at "
+        "70-97 % of the dictionary, up to 192K) x header options, plus header-byte mutations / truncations with CRCs re-sealed, "
         "(c) first-512-byte prefixes for detection, (d) ZIP/TAR/7z archives of generated member sets (documents, dirs, "
         "empty files, hidden / unsupported / nested-archive names, one corrupt member) run through read_archive, "
         "(e) sessions = sequences of 2-5 such reads in one process over archives cut from one member pool (shared / edited / renamed / "
@@ -93,7 +95,7 @@ class _LzmaProxy:
 
 
 @contextlib.contextmanager
-def _instrumented(fs=True):
+def _instrumented(fs=True, big=BIG):
     """patch sevenzip.py: lzma proxy, number screening, `_decompress_folder` recording and (fs=True) filesystem capture"""
     from sharepoint2text.parsing.extractors.util import sevenzip as sz
     log, writes, calls = [], [], []
@@ -104,7 +106,7 @@ def _instrumented(fs=True):
 
     def read_number(self):
         v = orig_num(self)
-        if v > BIG:
+        if v > big:
             raise _Skip("huge-number")
         return v
 
@@ -154,12 +156,12 @@ def _err_class(e):
     return "bad7z" if isinstance(e, sz.Bad7zFile) else "other"
 
 
-def _real_sevenzip(data: bytes, tmp: str, pick=None):
+def _real_sevenzip(data: bytes, tmp: str, pick=None, big=BIG):
     """-> (outcome dict comparable with op c10.sevenzip, codec log, wanted) or raises _Skip.
     pick: None = extractall(members=None); else a function number_of_entries -> list of indices; the members
     handed to extractall are those entries of list() (an index past the end stands for a foreign FileInfo)"""
     from sharepoint2text.parsing.extractors.util.sevenzip import SevenZipReader
-    with _instrumented() as (log, writes, calls):
+    with _instrumented(big=big) as (log, writes, calls):
         try:
             r = SevenZipReader(io.BytesIO(data))
         except _Skip:
@@ -369,12 +371,72 @@ def _groups(rng, k):
 def _build_7z(rng, members):
     k = sum(1 for (_, kind, d) in members if kind == "file" and d)
     gs, tag = _groups(rng, k)
-    coders = [rng.choice(["copy", "lzma", "lzma2"]) for _ in gs]
+    coders = [_draw_coder(rng) for _ in gs]
     opts = dict(encode_header=rng.choice([None, None, "lzma", "lzma2", "copy"]), attrs=rng.choice(["win", "unix", None]),
                 mtime=rng.random() < 0.5, dummy=rng.choice([0, 0, 1, 5]), with_pack_crc=rng.random() < 0.3,
                 always_num_streams=rng.random() < 0.3, names_first=rng.random() < 0.2)
     spec = {"groups": gs, "coders": coders, "opts": opts}
-    return W.build_7z(members, gs, coders, **opts), spec, tag + "/" + "+".join(sorted(set(coders)) or ["-"])
+    return W.build_7z(members, gs, coders, **opts), spec, tag + "/" + _coder_tag(coders)
+
+
+# --- coder PARAMETERS.  A folder's coder carries properties the reader turns into the decoder set-up (LZMA2: one byte =
+# dictionary size 2^n or 3*2^(n-1); LZMA: lc/lp/pb byte + 32-bit dictionary size).  A packer chooses them from the data (7-Zip
+# shrinks the dictionary to the folder size), so they are part of "any standard packer": every run draws them, and the
+# `far` member sets make the choice MATTER: a block of text occurs twice in the folder's stream, the second time at a
+# distance of 70-97 % of the dictionary, so a decoder set up with a smaller dictionary than the encoder's cannot decode.
+def _param_coder(rng, kind, p):
+    """kind in lzma|lzma2, p = LZMA2-style dictionary index (W.lzma2_dict)"""
+    if kind == "lzma2":
+        return f"lzma2:{p}"
+    lc = rng.randint(0, 4)
+    lp = rng.randint(0, 4 - lc)
+    return f"lzma:{lc}:{lp}:{rng.randint(0, 4)}:{W.lzma2_dict(p)}"
+
+
+def _draw_coder(rng):
+    c = rng.choice(["copy", "lzma", "lzma2"])
+    if c != "copy" and rng.random() < 0.4:
+        return _param_coder(rng, c, rng.randint(0, 16))
+    return c
+
+
+def _coder_tag(coders):
+    return "+".join(sorted({W.coder_base(c) for c in coders}) or ["-"])
+
+
+def _noise(rng, n):
+    """n characters of poorly compressible text"""
+    return base64.b64encode(rng.getrandbits(8 * n).to_bytes(n, "little")).decode()[:n] if n > 0 else ""
+
+
+def _far_case(rng, kind, p, ap=None):
+    """-> (members, spec, tag): one folder whose stream repeats a block at 70-97 % of the dictionary W.lzma2_dict(p),
+    as one member holding it twice, or as two members with a third in between (solid), dirs / empty files interleaved;
+    optionally a second, ordinary folder after it"""
+    ds = W.lzma2_dict(p)
+    dist = int(ds * rng.uniform(0.70, 0.97))
+    blk = _noise(rng, rng.randint(200, 400))
+    shape = rng.choice(["one", "solid", "solid", "solid+"])
+    if shape == "one":
+        ms = [("far/twice0.txt", "file", (blk + "\n" + _noise(rng, dist - len(blk) - 1) + blk + "\nend\n").encode())]
+    else:
+        a = ("far/first0.txt", "file", (blk + "\n").encode())
+        pad = ("far/between1." + rng.choice(["txt", "md"]), "file", (_noise(rng, dist - len(blk) - 1)).encode())
+        b = ("far/again2.txt", "file", ("again " + blk + "\n").encode())
+        ms = [a, pad, b]
+        if rng.random() < 0.5:
+            ms.insert(rng.randint(0, 3), ("far/sub", "dir", b""))
+        if rng.random() < 0.5:
+            ms.insert(rng.randint(0, len(ms)), ("far/empty9.txt", "file", b""))
+    k = sum(1 for (_, kk, d) in ms if kk == "file" and d)
+    gs, coders = [k], [_param_coder(rng, kind, p)]
+    if shape == "solid+":
+        ms.append(("after3.txt", "file", _text(rng, "after").encode()))
+        gs.append(1)
+        coders.append(_draw_coder(rng))
+    opts = dict(encode_header=rng.choice([None, None, "lzma2"]), attrs=rng.choice(["win", "unix", None]), mtime=False, dummy=0,
+                with_pack_crc=rng.random() < 0.3, always_num_streams=rng.random() < 0.3, names_first=False)
+    return ms, {"groups": gs, "coders": coders, "opts": opts}, f"far-{shape}/{kind}"
 
 
 def _reseal(data: bytearray) -> bytes:
@@ -484,6 +546,15 @@ def _seven_cases(ctx):
         if len(spec["groups"]) and max(spec["groups"]) > 1:
             sk = rng.choice(["zero-last", "overflow", "short"])
             cases.append(("skewed-" + sk, W.build_7z(ms, spec["groups"], spec["coders"], skew=sk, **spec["opts"]), None))
+    # coder parameters that matter: every dictionary index 0..5 (4K .. 24K) x LZMA / LZMA2, a block repeated near the end of the window
+    for j in range(ctx.n(12, 60)):
+        ms, spec, tag = _far_case(rng, ["lzma2", "lzma"][(j // 6) % 2], j % 6)
+        cases.append(("valid/" + tag, W.build_7z(ms, spec["groups"], spec["coders"], **spec["opts"]), {"members": ms, "spec": spec}))
+    # ... and LARGE folders (128K / 192K dictionaries, pack streams of 70-140 KB): whatever the reader does per buffer,
+    # per 64 KiB or with a capped dictionary shows here
+    for j in range(ctx.n(2, 8)):
+        ms, spec, tag = _far_case(rng, ["lzma2", "lzma"][j % 2], 10 + (j // 2) % 2)
+        cases.append(("valid/" + tag + "-large", W.build_7z(ms, spec["groups"], spec["coders"], **spec["opts"]), {"members": ms, "spec": spec}))
     # declared file count against the bytes that remain in the header (count - 1, count, count + 1 bytes left)
     for n in (2, 3, 5, 9, 40, 300):
         for m in (n - 1, n, n + 1):
@@ -502,7 +573,8 @@ def _corr_sevenzip(ctx, broken, tmp):
     cases = _seven_cases(ctx)
     reqs, reals, kept = [], [], []
     for tag, data, meta in cases:
-        if len(data) > 6000:
+        far = tag.startswith("valid/far")   # well-formed by construction: the number screen is only for mutated headers
+        if len(data) > (200000 if far else 6000):
             ctx.count("7z/skipped-large")
             continue
         # once with members=None, once with a random subset of the listed entries as `members`
@@ -524,7 +596,7 @@ def _corr_sevenzip(ctx, broken, tmp):
                         idx.append(idx[0])         # the same entry twice
                     return idx
             try:
-                real, log, wanted = _real_sevenzip(data, tmp, pick)
+                real, log, wanted = _real_sevenzip(data, tmp, pick, big=(10 ** 6 if far else BIG))
             except _Skip as e:
                 ctx.count(f"7z/skipped-{e}")
                 continue
@@ -600,7 +672,7 @@ def _layout_request(members, groups, coders, opts):
         left -= 1
         if left == 0:
             cid, props, packed = W.encode(coders[gi], cur_data)
-            folders.append({"m": coders[gi], "props": list(props) if props is not None else [], "pack": len(packed),
+            folders.append({"m": W.coder_base(coders[gi]), "props": list(props) if props is not None else [], "pack": len(packed),
                             "pcrc": zlib.crc32(packed), "crc": zlib.crc32(cur_data), "entries": cur})
             packs.append(packed)
             gi += 1
@@ -647,7 +719,7 @@ def _corr_writer(ctx, broken, tmp):
         ms = _members(rng, rng.choice([0, 1, 2, 3, 4, 5, 6, 8]), "a.7z")
         k = sum(1 for (_, kind, d) in ms if kind == "file" and d)
         gs, tag = _groups(rng, k)
-        coders = [rng.choice(["copy", "lzma", "lzma2"]) for _ in gs]
+        coders = [_draw_coder(rng) for _ in gs]
         opts = _writer_opts(rng, i)
         if sum(len(d) for _, _, d in ms) > 5000:
             ctx.count("writer/skipped-large")
@@ -1090,6 +1162,12 @@ def _oracle_run(ctx, n, seeds=()):
             consider(fmt, sub, members, c.get("ap") or ap, spec or spec2, data, tag)
         except Exception:
             continue
+    # coder parameters: every dictionary index 0..pmax x LZMA / LZMA2 swept, a block repeated at 70-97 % of the dictionary
+    pmax = ctx.n(11, 14)
+    for j in range(max(2 * (pmax + 1), n // 8)):
+        members, spec, tag = _far_case(rng, ["lzma2", "lzma"][(j // (pmax + 1)) % 2], j % (pmax + 1))
+        data, ap, spec, _ = _build_archive(rng, members, "7z", None, spec)
+        consider("7z", None, members, ap, spec, data, tag)
     for i in range(n):
         fmt, sub = _archive_variants()[i % 7] if i % 2 else ("7z", None)
         members = _members(rng, rng.choice([1, 2, 3, 4, 6]), None, small=(i % 5 != 0))
@@ -1148,6 +1226,14 @@ def replay(ctx, payload):
     return (r is None), (r[1] if r else "property holds on the recorded archive")
 
 
+def _far_witness():
+    import random
+    r = random.Random(10)
+    blk = _noise(r, 300)
+    return [("far/first0.txt", "file", (blk + "\n").encode()), ("far/between1.txt", "file", _noise(r, 5200).encode()),
+            ("far/again2.txt", "file", ("again " + blk + "\n").encode())]
+
+
 _WIN = {"encode_header": None, "attrs": "win", "mtime": False, "dummy": 0, "with_pack_crc": False, "always_num_streams": False, "names_first": False}
 WITNESSES = [
     # (key, fmt, sub, members, spec) — the counterexample theorems of Props/C10.lean, replayed on the real code
@@ -1163,6 +1249,8 @@ WITNESSES = [
      {"groups": [1, 2], "coders": ["copy", "copy"], "opts": dict(_WIN, folder_crc=True)}),
     ("7z.attributes-external-byte-not-read", "7z", None, [("x.txt", "file", b"x-ray"), ("y.txt", "file", b"yankee")],
      {"groups": [2], "coders": ["copy"], "opts": dict(_WIN, attr_values=[0x10000020, 0x20])}),
+    # lzma2Dict_without_mantissa_counterexample: a 6 KiB dictionary (property byte 1), a block repeated 5.4 KiB later
+    ("7z.lzma2-dictionary-3x2n", "7z", None, _far_witness(), {"groups": [3], "coders": ["lzma2:1"], "opts": _WIN}),
     ("tar.first-member-name-shadows-magic", "tar", "", [("BZnotes.txt", "file", b"bravo zulu"), ("b.txt", "file", b"bravo")], None),
     # open known finding: an empty plain tar is 10240 zero bytes, there is nothing to detect it by
     ("tar.empty-archive-fails.plain", "tar", "", [], None),
